@@ -48,9 +48,10 @@ Record definfo := mkDef {
 }.
 
 Record call := mkCall {
-  c_args : list N;                    (* positional argument sources, left to right (a trailing *x removed) *)
+  c_args : list N;                    (* positional argument sources, left to right (star arguments removed) *)
   c_kws  : list (N * N);              (* keyword arguments (name, source) in call order *)
-  c_star : bool                       (* the call has a *x argument: CallInfo.args_arg, ignored by inlining *)
+  c_star : bool                       (* the call has a *x or a **y argument (CallInfo.args_arg / keywords_arg):
+                                         not mapped by ArgumentMapping; such a call site has no binding in [bind] *)
 }.
 
 Definition pnames (d : definfo) : list N := map fst (d_params d).
